@@ -810,7 +810,8 @@ def collect_as_lists(
             continue
         # Translate original output names to renamed names
         renamed_values = node.map_outputs_from_original(result.values)
+        # None placeholder when this item did not produce the output (e.g. it
+        # took a different gate branch), so entry i always belongs to item i
         for name in node.outputs:
-            if name in renamed_values:
-                collected[name].append(renamed_values[name])
+            collected[name].append(renamed_values.get(name))
     return collected
